@@ -205,7 +205,16 @@ def run(tier):
         ps = pairs(feature, maxsub)
         dirname = os.path.join(CACHE, "gen", "c17_%s" % ("f" if feature else "nf"))
         gen_pairs_crate(dirname, ps)
-        text = expand(dirname, "wit_c17", features=feats, cfgs=cfgs)
+        try:
+            text = expand(dirname, "wit_c17", features=feats, cfgs=cfgs)
+        except CheckError as e:
+            # every member of every pair is an argument list the macro accepts (or rejects with compile_error!,
+            # which still pretty-prints): no expansion at all means some member expanded to tokens that do not parse
+            first = re.search(r"^error[^\n]*", str(e), re.M)
+            rep.add("W-EQUIV", "[%s] pair corpus expansion" % cfgname,
+                    "the pair corpus does not expand at all in configuration %s (the macro's output for some accepted argument list does not parse): %s"
+                    % (cfgname, first.group(0) if first else str(e)[:200]))
+            continue
         items = items_of(parse_tts(tokenize(text)))
         mods = {}
         for it in items:
